@@ -12,7 +12,10 @@ centroid_sources`` and compared with
   EVERY pixel of the array (edges and corners: trimmed search boxes),
 * the symmetry centre of point-symmetric sources,
 * metamorphic relations (flips, transposition, positive rescaling, values
-  underneath the mask),
+  underneath the mask); positive rescaling over a MAGNITUDE LADDER (factors 2^-120 ... 2^120 -- thorough 2^-400 ...
+  2^400 -- and 1e-30 ... 1e30: images in physical flux units / huge counts, not only factors of order unity) for every
+  centroid function on generic arrays, for exactly quadratic peaks (the vertex at every magnitude), for point-symmetric
+  sources, for centroid_sources (image times the factor) and for N-d centroid_com,
 * the combination "mask with finite garbage underneath AND additional UNMASKED non-finite pixels in the same
   array" (every function, the mask given as keyword, as the mask of a MaskedArray input, or split between the
   two): same result as the clean array with every excluded pixel flagged in mask= , and
@@ -43,9 +46,17 @@ RULE = ('full Cartesian products: (sym) every cutout shape in {3..9}^2 x every s
         'MaskedArray input} x 4 centroid functions; (generic) shapes x generic signed/peaked arrays x mask variant {none, '
         'mask, NaN/inf instead of the mask, mask with finite garbage (1e6, -2e3) underneath + unmasked NaN and +inf '
         'elsewhere} x mask delivery {mask= keyword, MaskedArray input, one pixel in each} (MaskedArray inputs: Gaussian-fit '
-        'functions only) x {flipud, fliplr, both, transpose, x2, x1e-3} and, for every variant but the canonical one, '
+        'functions only) x {flipud, fliplr, both, transpose, x2, x1e-3, and with the mask= delivery the complete MAGNITUDE '
+        'LADDER: x2^k for k in +-{20, 40, 60, 90, 120} (thorough: +-{10, 20, 30, 40, 60, 90, 120, 150, 200, 300, 400}; exact '
+        'factors) and x{1e-30, 1e-17, 1e-9, 1e9, 1e17, 1e30}} and, for every variant but the canonical one, '
         'equality with the call on the clean ndarray with every excluded pixel flagged in mask= ; (quad) shapes x every interior peak pixel x 5x5 sub-pixel vertex lattice x 3 curvature sets '
-        'x fit_boxsize x mask variant x (xpeak, ypeak, search_boxsize) variant; (qsearch) centroid_quadratic on '
+        'x fit_boxsize x mask variant x (xpeak, ypeak, search_boxsize) variant; (quadamp) the exactly quadratic peak times every '
+        'rung of the magnitude ladder x shapes x every interior peak pixel x vertex sub-lattice (quick: 3 of the 25 offsets '
+        '(-0.4,0.3), (0,0), (0.45,-0.2); thorough: all 25) x 3 curvature sets x fit_boxsize x {no mask, peak pixel masked over '
+        '1e6} x {whole-array maximum, xpeak/ypeak + search_boxsize 3}: the vertex must be returned at every magnitude; '
+        '(sym, ladder) variants zero-filled / masked garbage x both ends of the quick ladder (x2^-120, x2^120) for '
+        'centroid_com and centroid_quadratic (thorough: the Gaussian fits too): same symmetry centre; '
+        '(qsearch) centroid_quadratic on '
         'non-quadratic data: shapes x {generic noise, four sources next to the corners, point-symmetric source '
         'centred on every interior pixel} x guess (xpeak, ypeak) on EVERY pixel of the array incl. edges and corners '
         '(for the symmetric sources: every pixel within reach of the largest search box) x {integer, fractional} '
@@ -57,7 +68,11 @@ RULE = ('full Cartesian products: (sym) every cutout shape in {3..9}^2 x every s
         '1-3 distinct positions out of 4 (+ a repeated one) x cutout spec {box 5, box (5,7), cross footprint, even '
         '4x6 footprint} x mask x centroid function x {error, xpeak/ypeak, xpeak/ypeak/search_boxsize} keyword x scene {finite '
         'image, image with one unmasked non-finite pixel in every cutout and finite garbage underneath the mask, the same '
-        'with the mask carried by a MaskedArray image (Gaussian fits)}. A case counts as non-trivial '
+        'with the mask carried by a MaskedArray image (Gaussian fits)}; (sources, ladder) finite image x factor {2^-120, 2^120} '
+        '(thorough: the complete ladder; error map unchanged) x every cutout spec x mask x centroid function x extra keyword x '
+        'the list of ALL positions in both orders: the same centroids as for the unscaled image (com exact, quadratic 1e-9, '
+        'Gaussian fits 1e-5) and the per-position clause on the scaled image; thorough (qsearch): both ends of the ladder '
+        'as two more transforms of the complete call. A case counts as non-trivial '
         'when the rule of its clause applies (well-posedness rules are evaluated on the INPUT and stated next to '
         'each clause); for sources: the list has >= 2 positions; '
         '(nd) centroid_com on N-dimensional boxes: ndim x every shape of the tier (quick: 1-D n=3..9, 2-D {3,4,5}^2, '
@@ -65,7 +80,7 @@ RULE = ('full Cartesian products: (sym) every cutout shape in {3..9}^2 x every s
         '(3,4,3,4,3,4)) x {signed, positive, off-centre blob with a different displacement on every axis} x mask '
         'variant {none, mask over 1e6 / NaN, NaN / inf instead of the mask, mask over finite garbage + unmasked NaN / '
         '-inf elsewhere} x EVERY element of the symmetry group of the box (all n! axis permutations x all 2^n flip '
-        'subsets: 2, 8, 48, 384, 3840, 46080 elements) + {x2, x1e-3}, judged by the fsum moment definition with the '
+        'subsets: 2, 8, 48, 384, 3840, 46080 elements) + {x2, x1e-3, every rung of the magnitude ladder}, judged by the fsum moment definition with the '
         'result in pixel order (last numpy axis first, one coordinate per axis), bit-exact equality with the call on '
         'the clean array with every excluded pixel in mask=, and covariance under every group element; non-trivial = '
         'all coordinates of the centre of mass pairwise differ by > 1e-6; (ndsym) the same shapes x every symmetry '
@@ -90,6 +105,11 @@ ASSUMPTIONS = ['numpy, math.fsum, astropy.modeling fitters (TRFLSQFitter) are tr
                'the cutout of a position is the astropy overlap_slices window [ceil(p - n/2), ceil(p - n/2) + n) '
                'clipped to the image; half-integer positions (ties of "centred") are not in the alphabet',
                'Gaussian-fit clauses are applied only to single-peaked positive inputs (rule evaluated on the input)',
+               '"positive rescaling" is read as: every positive factor for which the data AND their squares stay inside the '
+               'normal float64 range (alphabet: |data| in [1e-10, 1e3] times 2^k, |k| <= 400, or times 1e-30 ... 1e30); '
+               'multiplication by 2^k is exact, so com / quadratic must reproduce the unscaled result to the bit (com) resp. '
+               'within the bound of the other rescalings; the error map of centroid_sources is not rescaled (the minimiser '
+               'of a weighted fit does not depend on a common factor of the data)',
                'the "box of size search_boxsize" is the set of pixels within (n-1)/2 of the pixel nearest to (xpeak, '
                'ypeak) (round half away from zero; the fractional guesses of the alphabet are not ties), clipped to '
                'the array; cases whose brightest pixel in that box is not unique are skipped (tie-break unspecified)',
@@ -102,6 +122,53 @@ ASSUMPTIONS = ['numpy, math.fsum, astropy.modeling fitters (TRFLSQFitter) are tr
 
 EPS = np.finfo(float).eps
 FUNC_NAMES = ('com', 'quad', '1dg', '2dg')
+
+# ----------------------------------------------------------------------------
+# magnitude LADDER of the positive-rescaling relation.  "Commutes with positive rescaling of the data" is stated for
+# every positive factor, not only for factors of order unity: images calibrated in physical flux units have pixel
+# values of 1e-17 (erg/s/cm2/A) ... 1e-32 (uJy in SI), count images 1e5 and more.  A rung is a string:
+# 'p2:k' = factor 2^k (multiplication by a power of two is EXACT in binary floating point as long as nothing under- /
+# overflows, so every intermediate quantity of com / quadratic is the exactly scaled one) or 'x<decimal>' (a factor
+# from the units people use; rounds).  Well-posedness rule of a rung (evaluated on the input): the SQUARES of the
+# scaled data (sums of squares of residuals, products of two polynomial coefficients) stay far inside the normal
+# float64 range: |data| in [1e-10, 1e3] and |k| <= 400 -> squares in [1e-261, 1e247].
+LADDER_P2_QUICK = (-120, -90, -60, -40, -20, 20, 40, 60, 90, 120)
+LADDER_P2_THOROUGH = (-400, -300, -200, -150, -120, -90, -60, -40, -30, -20, -10, 10, 20, 30, 40, 60, 90, 120, 150, 200, 300, 400)
+LADDER_DEC = ('1e-30', '1e-17', '1e-9', '1e9', '1e17', '1e30')
+EXTREMES = ('p2:-120', 'p2:120')      # both ends of the quick ladder (families where the whole ladder is too expensive)
+
+
+# LADDER_NOTE (calibration; thorough ladder, every shape {3..9}^2, kinds signed / positive / blob, seeds 0-2):
+#   'p2:k' rungs: com 0, quadratic 0 on the unchanged tree (exact scaling); 1dg / 2dg 0 once the fits are done on
+#   normalised data (proposed_fixes/C17-gaussian-centroids-depend-on-data-units), 0.12 / 0.096 px on the pinned tree whose
+#   fitter stops on an absolute gradient tolerance -- a genuine dependence on the units of the data, not rounding;
+#   decimal rungs: com 5.7e-13 (signed data; inside the fsum-derived bound), quadratic 6.7e-14, 1dg 8.9e-9, 2dg 3.1e-9.
+#   Bounds used: com 0 for 'p2:k' / the fsum-derived rounding bound otherwise; quadratic 1e-9; Gaussian fits 1e-5 (the
+#   bounds of the older x2 / x1e-3 relations: the relation is the same at every magnitude).
+def ladder(tier):
+    return tuple(f'p2:{k}' for k in (LADDER_P2_THOROUGH if tier == 'thorough' else LADDER_P2_QUICK)) + tuple('x' + t for t in LADDER_DEC)
+
+
+def is_rung(name):
+    return name.startswith(('p2:', 'x'))
+
+
+def rung_factor(rung):
+    return math.ldexp(1.0, int(rung[3:])) if rung.startswith('p2:') else float(rung[1:])
+
+
+def rung_exact(rung):
+    return rung.startswith('p2:')
+
+
+def rung_side(rung):
+    """which end of the ladder: a defect at tiny magnitudes and one at huge magnitudes are different defects"""
+    return 'small' if rung_factor(rung) < 1 else 'large'
+
+
+def scaled(d, rung):
+    with np.errstate(all='ignore'):     # garbage underneath a mask (1e300) may overflow to inf: still garbage
+        return d * rung_factor(rung)
 
 
 def funcs():
@@ -219,6 +286,7 @@ def make_sym(ny, nx, cx2, cy2, seed, peaked=True, amp=0.3):
 
 
 SYM_VARIANTS = ('zero', 'masked', 'flat', 'masked+nf', 'masked+nf:ma')
+SYM_LADDER_VARIANTS = ('zero', 'masked')
 
 
 def sym_centres(ny, nx):
@@ -314,6 +382,18 @@ def check_sym(acc, case, seed, F):
             st2, r2 = call(f, pk(d2), **kw)
             if st2 != 'ok' or not np.array_equal(r, r2, equal_nan=True):
                 acc.violation('mask-blind', name + ('+nonfinite' if nf else ''), case, r2, r, 'changing values of masked pixels changed the result')
+        # magnitude ladder (both ends): a point-symmetric source times a positive factor is a point-symmetric source about
+        # the same centre.  Quick: the two closed-form functions; thorough: the Gaussian fits too (same rule, same bound:
+        # the start value of the fit is the centre by symmetry at every magnitude)
+        if variant in SYM_LADDER_VARIANTS and (name in ('com', 'quad') or case.get('tier') == 'thorough'):
+            for rung in EXTREMES:
+                st4, r4 = call(f, pk(scaled(dat, rung)), **kw)
+                acc.case(nontrivial=True)
+                if st4 != 'ok':
+                    acc.violation('sym-raises', f'{name}:ladder:{rung_side(rung)}', case, r4, 'no exception', f'valid call raised on data x {rung}')
+                elif not np.all(np.abs(r4 - c) <= tol):
+                    acc.violation('symmetry-centre', f'{name}:ladder:{rung_side(rung)}', case, r4, c,
+                                  f'point-symmetric source about {c.tolist()} times {rung} = {rung_factor(rung):.3g}')
 
 
 # ----------------------------------------------------------------------------
@@ -356,6 +436,8 @@ def transform(name, d):
         return d * 2.0 if d.dtype != bool else d.copy()
     if name == 'scale1e-3':
         return d * 1.0e-3 if d.dtype != bool else d.copy()
+    if is_rung(name):
+        return scaled(d, name) if d.dtype != bool else d.copy()
     raise AssertionError(name)
 
 
@@ -444,7 +526,8 @@ def check_generic(acc, case, seed, F):
         if name == 'quad' and not unique_max(d, eff_mask):
             acc.skip('quad: maximum not unique (argmax tie-break is not flip covariant)')
             continue
-        for tname in TRANSFORMS:
+        # (the magnitude ladder with the mask= keyword delivery only: how the mask arrives and the magnitude do not interact)
+        for tname in TRANSFORMS + (ladder(case.get('tier', 'quick')) if form == 'kw' else ()):
             d2 = transform(tname, d)
             st2, r2 = callp(f, d2, None if m_ma is None else transform(tname, m_ma),
                             None if m_kw is None else transform(tname, m_kw), form)
@@ -452,7 +535,7 @@ def check_generic(acc, case, seed, F):
             if name == 'com':
                 ref, tol = ref_com(d, eff_mask)
                 tol = 2 * tol + 8 * EPS * max(nx, ny) if ref is not None else np.zeros(2)
-                if tname == 'scale2':
+                if tname == 'scale2' or (is_rung(tname) and rung_exact(tname)):
                     tol = np.zeros(2)        # scaling by a power of two is exact in binary floating point
                 if tname == 'transpose':
                     tol = tol[::-1]
@@ -460,21 +543,23 @@ def check_generic(acc, case, seed, F):
                 # least squares on <= 25 points of O(1..100) data; the transforms change the rounding only.
                 # measured worst over seeds 0-2, all shapes: 1.6e-13
                 tol = np.full(2, 1e-9)
-            elif tname.startswith('scale'):
+            elif tname.startswith('scale') or is_rung(tname):
                 # iterative fit; rescaling changes the fitter's step/termination arithmetic.
                 # measured worst (seeds 0-2, all shapes): x2 1.6e-9, x1e-3 7.1e-7 (2dg) -> x10 margin and more
+                # (ladder rungs: LADDER_NOTE below)
                 tol = np.full(2, 1e-5)
             else:
                 # iterative fit: the mirrored problem runs through mirrored iterates up to rounding.
                 # measured worst (seeds 0-2, all shapes): 4.3e-10 (1dg flipud) -> x200 margin
                 tol = np.full(2, 1e-7)
+            tsite = f'ladder:{rung_side(tname)}' if is_rung(tname) else tname      # one key per end of the ladder, not per rung
             if st2 != 'ok':
-                acc.violation('commute-raises', f'{name}:{tname}', case, r2, want)
+                acc.violation('commute-raises', f'{name}:{tsite}', case, r2, want, f'transform {tname}')
                 continue
             bad = ~((np.abs(r2 - want) <= tol) | (np.isnan(r2) & np.isnan(want)))
             if bad.any():
-                acc.violation('commutes', f'{name}:{tname}', case, r2, want,
-                              f'f(T(data)) != T(f(data)); |dev|={np.nanmax(np.abs(r2 - want)):.3g}, tol={tol.tolist()}')
+                acc.violation('commutes', f'{name}:{tsite}', case, r2, want, f'transform {tname}: '
+                              f'f(T(data)) != T(f(data)); |dev|={np.nanmax(np.abs(np.where(np.isnan(r2 - want), np.inf, r2 - want))):.3g}, tol={tol.tolist()}')
 
 
 # ----------------------------------------------------------------------------
@@ -505,6 +590,10 @@ def check_quad(acc, case, seed, F):
     q = 10.0 + cxx * (xx - vx) ** 2 + cyy * (yy - vy) ** 2 + cxy * (xx - vx) * (yy - vy)
     f = F['quad']
     mask = None
+    amp = case.get('amp')             # rung of the magnitude ladder: the exactly quadratic peak times a positive factor
+    if amp is not None:               # is an exactly quadratic peak (for 'p2:k' every pixel value is the exactly scaled one)
+        q = scaled(q, amp)
+    asite = '' if amp is None else f',amp={rung_side(amp)}'
     data = q.copy()
     if mvar == 'off-peak-nan':
         mask = np.zeros((ny, nx), bool)
@@ -550,13 +639,13 @@ def check_quad(acc, case, seed, F):
     edge = sx in (0, nx - 1) or sy in (0, ny - 1)
     acc.case(nontrivial=not edge, sample=case if acc.evaluations % 3001 == 11 else None)
     if st != 'ok':
-        acc.violation('quad-raises', f'peak={pvar}', case, r, 'no exception')
+        acc.violation('quad-raises', f'peak={pvar}{asite}', case, r, 'no exception')
         return
     acc.outcome((round(float(r[0]), 6) if np.isfinite(r[0]) else 'nan'))
     if edge:
         # documented: no fit is performed when the start pixel is at the edge; its position is returned
         if not np.array_equal(r, [sx, sy]):
-            acc.violation('quad-edge-rule', f'peak={pvar}', case, r, [sx, sy],
+            acc.violation('quad-edge-rule', f'peak={pvar}{asite}', case, r, [sx, sy],
                           'start pixel on the edge: documented to return the position of that pixel')
         return
     # the fit box around an interior pixel (shifted inside) holds >= 6 unmasked points of an exactly quadratic
@@ -565,9 +654,11 @@ def check_quad(acc, case, seed, F):
     if not (0.0 < vx < nx - 1 and 0.0 < vy < ny - 1):
         acc.skip('vertex outside the image (documented NaN)')
         return
+    # (amplitude ladder: the vertex formula is homogeneous of degree 0 in the coefficients, which are linear in the data:
+    # the same bound at every magnitude; measured worst over the quick ladder on the unchanged tree: see LADDER_NOTE)
     if not np.all(np.abs(r - (vx, vy)) <= 1e-9):
-        acc.violation('quad-vertex', f'mask={mvar},peak={pvar},box={"sq" if np.isscalar(box) else "rect"}', case, r, [vx, vy],
-                      'exactly quadratic peak: the vertex must be returned')
+        acc.violation('quad-vertex', f'mask={mvar},peak={pvar},box={"sq" if np.isscalar(box) else "rect"}{asite}', case, r, [vx, vy],
+                      'exactly quadratic peak' + ('' if amp is None else f' times {amp} = {rung_factor(amp):.3g}') + ': the vertex must be returned')
 
 
 # ----------------------------------------------------------------------------
@@ -747,22 +838,23 @@ def check_qsearch(acc, case, seed, F):
                     acc.violation('symmetry-centre', f'quad:search:trim={trim}', case, r, [sx, sy],
                                   'point-symmetric source, guess off-centre, centre pixel brightest in the search box')
     # (e) flips / transposition of the complete call (data, mask, xpeak, ypeak, box sizes)
-    for tname in STRANSFORMS:
+    for tname in STRANSFORMS + (EXTREMES if case.get('tier') == 'thorough' else ()):
         kw2 = {'xpeak': None, 'ypeak': None, 'search_boxsize': t_box(tname, sbox), 'fit_boxsize': t_box(tname, fbox)}
         kw2['xpeak'], kw2['ypeak'] = [float(t) for t in map_xy(tname, (xpeak, ypeak), ny, nx)]
         if mask is not None:
             kw2['mask'] = transform(tname, mask)
         st2, r2 = call(f, transform(tname, data), **kw2)
         want = map_xy(tname, r, ny, nx)
+        tsite = f'ladder:{rung_side(tname)}' if is_rung(tname) else tname
         if st2 != 'ok':
-            acc.violation('commute-raises', f'quad-search:{tname}', case, r2, want)
+            acc.violation('commute-raises', f'quad-search:{tsite}', case, r2, want)
             continue
         # same tolerance and justification as the (generic) family: the transforms change the rounding only;
         # measured worst (seeds 0-2, shapes 5x5, 6x7, 7x5, 9x9): 1.9e-12 (symmetry-centre clause above: 8.6e-14)
         bad = ~((np.abs(r2 - want) <= 1e-9) | (np.isnan(r2) & np.isnan(want)))
         if bad.any():
-            acc.violation('commutes', f'quad-search:{tname}', case, r2, want,
-                          f'f(T(data), T(xpeak, ypeak, boxes)) != T(f(data)); search box trim={trim}')
+            acc.violation('commutes', f'quad-search:{tsite}', case, r2, want,
+                          f'{tname}: f(T(data), T(xpeak, ypeak, boxes)) != T(f(data)); search box trim={trim}')
 
 
 def qsearch_data(tier, ny, nx):
@@ -782,10 +874,10 @@ def qsearch_cases(tier, ny, nx, dspec):
                         for mvar in SMASKS:
                             if dspec[0] == 'sym' and mvar != 'none':
                                 continue    # (the next brightest pixels of a symmetric source form tied pairs)
-                            yield {'kind': 'qsearch', 'shape': [ny, nx], 'data': list(dspec), 'pix': [xp, yp],
-                                   'sbox': list(sbox) if isinstance(sbox, tuple) else sbox,
-                                   'fbox': list(fbox) if isinstance(fbox, tuple) else fbox,
-                                   'peakv': pv, 'mask': mvar}
+                            yield dict({'kind': 'qsearch', 'shape': [ny, nx], 'data': list(dspec), 'pix': [xp, yp],
+                                        'sbox': list(sbox) if isinstance(sbox, tuple) else sbox,
+                                        'fbox': list(fbox) if isinstance(fbox, tuple) else fbox,
+                                        'peakv': pv, 'mask': mvar}, **({'tier': tier} if tier == 'thorough' else {}))
 
 
 # ----------------------------------------------------------------------------
@@ -898,11 +990,26 @@ def position_lists(tier='quick'):
     return out
 
 
+def source_rungs(tier):
+    """quick: both ends of the ladder (the wrapper passes the cutout on; the complete ladder of every centroid function
+    itself is in the (generic) family); thorough: the complete ladder"""
+    return ladder(tier) if tier == 'thorough' else EXTREMES
+
+
+def source_ladder_lists(tier):
+    n = len(POSITIONS_THOROUGH if tier == 'thorough' else POSITIONS)
+    return [list(range(n)), list(range(n))[::-1]]       # every position of the alphabet, in both orders
+
+
 def check_sources(acc, case, seed, F, cache=None):
     from photutils.centroids import centroid_sources
     fname, spec, use_mask, extra, plist = case['func'], case['spec'], case['mask'], case['extra'], case['positions']
     scn = case.get('scene', 'plain')
+    rung = case.get('rung')           # magnitude ladder: the image times a positive factor (error map unchanged)
     img, err, mask = scene_variant(seed, scn, use_mask)
+    img1 = img
+    if rung is not None:
+        img = scaled(img, rung)
     kwbox, fp = footprint_of(spec)
     kw = dict(kwbox)
     image = img.copy()
@@ -919,7 +1026,7 @@ def check_sources(acc, case, seed, F, cache=None):
     cache = {} if cache is None else cache
     want = []
     for i in plist:
-        k = (fname, spec, use_mask, extra, i, scn)
+        k = (fname, spec, use_mask, extra, i, scn, rung)
         if k not in cache:
             cache[k] = expected_position(F, fname, img, err, mask, fp, POSITIONS_THOROUGH[i], use_mask, extra, scn)
         want.append(cache[k])
@@ -952,6 +1059,26 @@ def check_sources(acc, case, seed, F, cache=None):
                   'peaksearch': 'xpeak/ypeak/search_boxsize', 'none': 'none'}[extra]
         acc.violation('sources-per-position', f'kw={kwname}:{where}', case, got.tolist(), want.tolist(),
                       f'position #{k} of {len(plist)} differs from {fname} on its own cutout (atol {atol})')
+    if rung is not None:
+        # positive rescaling of the image: the same centroids as for the unscaled image (the wrapper only cuts out and adds
+        # the cutout origin).  Bounds as in the (generic) family: com exact for 'p2:k' (sums scale exactly; the origin is
+        # added to identical numbers), otherwise rounding of sums of <= 35 terms; quadratic 1e-9; Gaussian fits 1e-5.
+        image1 = np.ma.array(img1.copy(), mask=mask.copy()) if isinstance(image, np.ma.MaskedArray) else img1.copy()
+        try:
+            with warnings.catch_warnings():
+                warnings.simplefilter('ignore')
+                ux, uy = centroid_sources(image1, xs, ys, centroid_func=F[fname], **kw)
+        except Exception as e:
+            acc.violation('sources-raises', f'{fname}:extra={extra}', case, f'{type(e).__name__}: {e}', 'no exception')
+            return
+        base = np.array([np.asarray(ux, float), np.asarray(uy, float)]).T
+        atol = {'com': 0.0 if rung_exact(rung) else 1e-12, 'quad': 1e-9}.get(fname, 1e-5)
+        bad = [k for k in range(len(plist)) if not np.allclose(got[k], base[k], rtol=0, atol=atol, equal_nan=True)]
+        if bad:
+            k = bad[0]
+            acc.violation('sources-commutes', f'{fname}:ladder:{rung_side(rung)}', case, got.tolist(), base.tolist(),
+                          f'image x {rung} = {rung_factor(rung):.3g}: position #{k} of {len(plist)} differs from the result on the '
+                          f'unscaled image (atol {atol})')
 
 
 # ----------------------------------------------------------------------------
@@ -1049,13 +1176,16 @@ def check_nd(acc, case, seed, F):
             acc.violation('commutes', f'com:nd:{nd_class(ndim)}:{ttype}', case, r2, want,
                           f'f(T(data)) != T(f(data)) for T = transpose{list(perm)} then flip of axes {list(flips)}; '
                           f'|dev|={np.abs(r2 - want).max():.3g}, tol={t2.tolist()}')
-    for tname, fac in ND_SCALES:
-        st2, r2 = call_nd(f, d * fac, mask=user)
-        t2 = np.zeros(ndim) if tname == 'scale2' else 2 * tol + 8 * EPS * max(shape)     # x2 is exact in binary
+    for tname, fac in ND_SCALES + tuple((rg, rung_factor(rg)) for rg in ladder(case.get('tier', 'quick'))):
+        with np.errstate(all='ignore'):
+            st2, r2 = call_nd(f, d * fac, mask=user)
+        exact = tname == 'scale2' or (is_rung(tname) and rung_exact(tname))       # powers of two are exact in binary
+        t2 = np.zeros(ndim) if exact else 2 * tol + 8 * EPS * max(shape)
+        tsite = f'ladder:{rung_side(tname)}' if is_rung(tname) else tname
         if st2 != 'ok' or r2.shape != (ndim,):
-            acc.violation('commute-raises', f'com:nd:{tname}', case, r2 if st2 != 'ok' else list(r2.shape), r)
+            acc.violation('commute-raises', f'com:nd:{tsite}', case, r2 if st2 != 'ok' else list(r2.shape), r, f'data x {tname}')
         elif not np.all(np.abs(r2 - r) <= t2):
-            acc.violation('commutes', f'com:nd:{nd_class(ndim)}:{tname}', case, r2, r, f'positive rescaling; tol={t2.tolist()}')
+            acc.violation('commutes', f'com:nd:{nd_class(ndim)}:{tsite}', case, r2, r, f'positive rescaling {tname}; tol={t2.tolist()}')
 
 
 def check_ndsym(acc, case, seed, F):
@@ -1145,6 +1275,31 @@ def quad_cases(tier):
                                            'mask': mvar, 'peak': pvar}
 
 
+AMP_FRACS = ((-0.4, 0.3), (0.0, 0.0), (0.45, -0.2))      # quick sub-lattice of the 5x5 sub-pixel vertex lattice
+AMP_MASKS = ('none', 'peak')
+AMP_PEAKS = ('none', 'search3')
+
+
+def quad_amp_cases(tier):
+    """(quadamp) exactly quadratic peaks x the magnitude ladder: ladder x shape x every interior peak pixel x vertex
+    sub-lattice (quick: 3 of the 25 offsets, thorough: all 25) x curvature set x fit_boxsize x mask {none, peak pixel
+    masked over 1e6} x {whole-array maximum, (xpeak, ypeak) + search_boxsize 3}"""
+    qs = QSHAPES_THOROUGH if tier == 'thorough' else QSHAPES_QUICK
+    fr = list(itertools.product(FRACS, repeat=2)) if tier == 'thorough' else AMP_FRACS
+    for amp in ladder(tier):
+        for (ny, nx) in qs:
+            for px in range(1, nx - 1):
+                for py in range(1, ny - 1):
+                    for fx, fy in fr:
+                        for curv in CURV:
+                            for box in BOXES:
+                                for mvar in AMP_MASKS:
+                                    for pvar in AMP_PEAKS:
+                                        yield {'kind': 'quad', 'shape': [ny, nx], 'pix': [px, py], 'frac': [fx, fy],
+                                               'curv': list(curv), 'box': list(box) if isinstance(box, tuple) else box,
+                                               'mask': mvar, 'peak': pvar, 'amp': amp}
+
+
 def source_configs():
     for fname in FUNC_NAMES:
         for spec in SPECS:
@@ -1194,6 +1349,12 @@ def plan(tier, seed):
         per = {1: 99, 2: 99, 3: 16, 4: 27, 5: 8, 6: 1}[ndim]
         for j in range(0, len(shs), per):
             units.append({'kind': 'ndsym', 'shapes': [list(sh) for sh in shs[j:j + per]]})
+    # magnitude ladder (appended last again)
+    nqa = 8 if tier == 'quick' else 32
+    for j in range(nqa):
+        units.append({'kind': 'quad', 'amp': True, 'shard': j, 'nshards': nqa})
+    for cfg in source_configs():
+        units.append({'kind': 'sources', 'cfg': list(cfg), 'ladder': True})
     return units
 
 
@@ -1205,16 +1366,16 @@ def run_unit(unit, tier, seed):
         ny, nx = unit['shape']
         for (cx2, cy2) in sym_centres(ny, nx):
             for variant in SYM_VARIANTS:
-                check_sym(acc, {'kind': 'sym', 'shape': [ny, nx], 'c2': [cx2, cy2], 'variant': variant}, seed, F)
+                check_sym(acc, dict({'kind': 'sym', 'shape': [ny, nx], 'c2': [cx2, cy2], 'variant': variant}, **({'tier': tier} if tier == 'thorough' else {})), seed, F)
     elif kind == 'generic':
         for (ny, nx) in unit['shapes']:
             for k in ('signed', 'positive', 'blob'):
                 for mvar, form in gen_variants():
                     if form != 'kw' and (k != 'blob' or min(ny, nx) < 5):
                         continue    # MaskedArray inputs: judged for the Gaussian fits only, which apply to blobs >= 5x5
-                    check_generic(acc, {'kind': 'generic', 'shape': [ny, nx], 'kind2': k, 'mask': mvar, 'form': form}, seed, F)
+                    check_generic(acc, {'kind': 'generic', 'shape': [ny, nx], 'kind2': k, 'mask': mvar, 'form': form, 'tier': tier}, seed, F)
     elif kind == 'quad':
-        for i, case in enumerate(quad_cases(tier)):
+        for i, case in enumerate(quad_amp_cases(tier) if unit.get('amp') else quad_cases(tier)):
             if i % unit['nshards'] == unit['shard']:
                 check_quad(acc, case, seed, F)
     elif kind == 'qsearch':
@@ -1226,12 +1387,19 @@ def run_unit(unit, tier, seed):
         for sh in unit['shapes']:
             for k in ND.ND_KINDS:
                 for mvar in ND.ND_MASKS:
-                    check_nd(acc, {'kind': 'nd', 'shape': list(sh), 'kind2': k, 'mask': mvar}, seed, F)
+                    check_nd(acc, dict({'kind': 'nd', 'shape': list(sh), 'kind2': k, 'mask': mvar}, **({'tier': tier} if tier == 'thorough' else {})), seed, F)
     elif kind == 'ndsym':
         for sh in unit['shapes']:
             for c2 in ND.sym_centres_nd(sh):
                 for variant in NDSYM_VARIANTS:
                     check_ndsym(acc, {'kind': 'ndsym', 'shape': list(sh), 'c2': list(c2), 'variant': variant}, seed, F)
+    elif unit.get('ladder'):
+        fname, spec, use_mask, extra = unit['cfg'][:4]
+        cache = {}
+        for rung in source_rungs(tier):
+            for plist in source_ladder_lists(tier):
+                check_sources(acc, {'kind': 'sources', 'func': fname, 'spec': spec, 'mask': use_mask, 'extra': extra,
+                                    'scene': 'plain', 'positions': plist, 'rung': rung}, seed, F, cache)
     else:
         fname, spec, use_mask, extra = unit['cfg'][:4]
         scn = unit['cfg'][4] if len(unit['cfg']) > 4 else 'plain'
@@ -1275,16 +1443,26 @@ def describe(tier, seed):
                              'mask+nf: mask over finite garbage (1e6, -2e3) + unmasked NaN at (ny-1, 1) and +inf at (1, nx//2)'],
                     'mask delivery': list(FORMS) + ['(MaskedArray forms: blob arrays >= 5x5, functions 1dg / 2dg)'],
                     'variants': [list(v) for v in gen_variants()],
-                    'transforms': list(TRANSFORMS)},
+                    'transforms': list(TRANSFORMS),
+                    'magnitude ladder (mask= delivery; further positive-rescaling transforms)': list(ladder(tier))},
         'quad': {'shapes': QSHAPES_THOROUGH if tier == 'thorough' else QSHAPES_QUICK, 'frac': list(FRACS),
                  'curvatures (cxx, cyy, cxy)': [list(c) for c in CURV], 'fit_boxsize': [3, 5, [3, 5]],
                  'mask': list(QMASKS), 'xpeak/ypeak': list(PEAKS)},
+        'quadamp (exactly quadratic peak x magnitude ladder)': {
+            'amplitude factor': list(ladder(tier)), 'shapes': QSHAPES_THOROUGH if tier == 'thorough' else QSHAPES_QUICK,
+            'peak pixel': 'every interior pixel',
+            'frac': [list(t) for t in (itertools.product(FRACS, repeat=2) if tier == 'thorough' else AMP_FRACS)],
+            'curvatures (cxx, cyy, cxy)': [list(c) for c in CURV], 'fit_boxsize': [3, 5, [3, 5]],
+            'mask': list(AMP_MASKS), 'xpeak/ypeak': list(AMP_PEAKS), 'clause': 'quad-vertex (1e-9) at every magnitude'},
+        'sym ladder': {'variants': list(SYM_LADDER_VARIANTS), 'factors': list(EXTREMES),
+                       'functions': list(FUNC_NAMES) if tier == 'thorough' else ['com', 'quad']},
         'qsearch': {'shapes': SSHAPES_THOROUGH if tier == 'thorough' else SSHAPES_QUICK,
                     'data': ['noise (generic positive)', 'peaks (4 sources next to the corners, sub-pixel centres)',
                              'sym (point symmetric about every interior pixel)'],
                     'guess (xpeak, ypeak)': 'every pixel of the array (sym: Chebyshev distance <= 2 of the centre)',
                     'guess kind': list(SPEAKV), 'search_boxsize': [3, 5, [3, 5], [5, 3]], 'fit_boxsize': [3, 5, [3, 5]],
-                    'mask': list(SMASKS) + ['(sym: none only)'], 'transforms': list(STRANSFORMS),
+                    'mask': list(SMASKS) + ['(sym: none only)'],
+                    'transforms': list(STRANSFORMS) + (list(EXTREMES) if tier == 'thorough' else []),
                     'clauses': ['search-start-pixel (bit-exact)', 'quad-edge-rule', 'search-fit (1e-8)',
                                 'symmetry-centre (1e-9)', 'commutes (1e-9)']},
         'sources': {'image': list(IMG_SHAPE),
@@ -1294,7 +1472,11 @@ def describe(tier, seed):
                     'scenes': list(SCENES), 'non-finite pixels ((x, y), value)': [[list(p), str(v)] for p, v in NF_PIXELS],
                     'garbage underneath the mask (nf scenes, mask given)': [1.0e4, -2.0e3],
                     'cutout': list(SPECS), 'mask': [False, True], 'extra': ['none', 'error', 'xpeak/ypeak', 'xpeak/ypeak/search_boxsize=3 (quad)'],
-                    'functions': list(FUNC_NAMES)},
+                    'functions': list(FUNC_NAMES),
+                    'ladder': {'factors (image x factor, plain scene)': list(source_rungs(tier)),
+                               'lists': source_ladder_lists(tier),
+                               'clauses': ['sources-commutes (vs the unscaled image: com 0 / 1e-12, quad 1e-9, fits 1e-5)',
+                                           'sources-per-position on the scaled image (bit-exact)']}},
         'nd (centroid_com on n-dimensional boxes)': {
             'shapes per ndim': {str(k): (f'{len(v)} shapes: ' + (str([list(x) for x in v]) if len(v) <= 9 else
                                           f'{list(v[0])} ... {list(v[-1])} (full product of the per-axis sizes)'))
@@ -1303,7 +1485,7 @@ def describe(tier, seed):
             'excluded pixels': 'end of the last axis in the first row, middle of the first axis, + 2 more distinct pixels (mask+nf; needs >= 6 pixels)',
             'transforms': {str(k): f'{len(ND.signed_perms(k))} = {math.factorial(k)} axis permutations x {2 ** k} flip subsets (identity = the case itself)'
                            for k in nd_shapes(tier)},
-            'rescaling': [t for t, _ in ND_SCALES],
+            'rescaling': [t for t, _ in ND_SCALES] + list(ladder(tier)),
             'clauses': ['nd-result-shape', 'com-definition (fsum bound)', 'nonfinite-as-masked / masked-and-nonfinite-as-masked / mask-blind (bit-exact)',
                         'commutes (2 x fsum bound + 8 eps n; x2 exact)']},
         'ndsym (n-dimensional point-symmetric sources)': {
